@@ -75,6 +75,8 @@ class World:
             return z3.Function('vk_address', z3.BitVecSort(256), z3.BitVecSort(160))(v)
         if isinstance(v, Obj):
             a = ex.adts.lookup(v.ty)
+            if a and a['kind'] == 'struct' and 'verification_key' in a['fields']:
+                return self.addr(st, ex.read(st, ('field', v, (None, a['fields'].index('verification_key'), 'VerificationKey'))))
             if a and a['kind'] == 'struct' and 'bytes' in a['fields']:
                 return self.addr(st, ex.read(st, ('field', v, (None, a['fields'].index('bytes'), '[u8; 20]'))))
             if a and a['kind'] == 'struct' and len(a['fields']) == 1:
